@@ -260,7 +260,7 @@ def pf_case(ctx, c):
 
 def camp_pf(ctx):
     n = dict(quick=60, thorough=700)[ctx.tier]
-    drive(ctx, pf_cases(), lambda c: (ctx.evaluated(), pf_case(ctx, c)), n=n, name='pf', chunk=30,
+    drive(ctx, pf_cases(), lambda c: (ctx.evaluated(), pf_case(ctx, c)), n=n, name='pf', chunk=15,
           budget_s=dict(quick=150, thorough=1500)[ctx.tier])
 
 
@@ -469,7 +469,7 @@ def tds_case(ctx, c):
 def camp_tds(ctx):
     quick = ctx.tier == 'quick'
     n = dict(quick=24, thorough=300)[ctx.tier]
-    drive(ctx, tds_cases(quick), lambda c: (ctx.evaluated(), tds_case(ctx, c)), n=n, name='tds', chunk=12,
+    drive(ctx, tds_cases(quick), lambda c: (ctx.evaluated(), tds_case(ctx, c)), n=n, name='tds', chunk=6,
           budget_s=dict(quick=170, thorough=2400)[ctx.tier])
 
 
@@ -951,7 +951,18 @@ def cli_case(ctx, c):
 
 def camp_cli(ctx):
     n = dict(quick=36, thorough=400)[ctx.tier]
-    drive(ctx, cli_cases(), lambda c: (ctx.evaluated(), cli_case(ctx, c)), n=n, name='cli', chunk=18,
+    # anchors: every kind of bad input alone (a failing member can hide behind another one in multi-case runs)
+    anchors = [(k, f) for k in KINDS[2:] for f in (('xlsx', 'raw') if k not in ('bitflip_json',) else ('json',))]
+    for j, (kind, fmt) in enumerate(sorted(set(anchors))):
+        if j % ctx.nshards != ctx.shard:
+            continue
+        c = dict(files=[dict(kind=kind, fmt=fmt, cut=0.4, seed=ctx.seed + j)], routine='tds' if kind == 'unstable' else 'pflow', pool=False, ncpu=1,
+                 entry='api')
+        ctx.current_case = c
+        ctx.evaluated()
+        ctx.count('cli:anchor:' + kind)
+        cli_case(ctx, c)
+    drive(ctx, cli_cases(), lambda c: (ctx.evaluated(), cli_case(ctx, c)), n=n, name='cli', chunk=6,
           budget_s=dict(quick=170, thorough=2000)[ctx.tier])
 
 
